@@ -61,6 +61,15 @@ def run(tier, seed, drv):
             run_ = run_scenario(scn, bus=b, seed=rng.randrange(1 << 30))
             res.case(SC.scn_key(scn) + b, nontrivial=len(S.devices(scn)) > 1, sample={"scenario": scn, "bus": b} if i < 2 and b == "sync" else None)
             SC.check_run(scn, run_, drv, res, monitors_on=("initial_tick", "device_order", "inputs_latest"), corr=("sim",), case_extra={"bus": b})
+        if i % 3 == 1:
+            # ... and from a configuration FILE through build_simulation, as one simulation or divided over several on one bus
+            fs = SC.as_config_file(scn, rng)
+            b = rng.choice(("sync", "held", "internal"))
+            sd = rng.randrange(1 << 30)
+            run_ = run_scenario(fs, bus=b, seed=sd)
+            res.case(SC.scn_key(fs) + f"file:{b}", nontrivial=len(S.devices(fs)) > 1)
+            res.count("from-config-file" + ("-divided" if len(fs["from_file"]) > 1 else ""))
+            SC.check_run(fs, run_, drv, res, monitors_on=("initial_tick", "device_order", "inputs_latest"), corr=("sim",), case_extra={"bus": b, "held_seed": sd})
     # the same shapes with a master scheduler that comes up late while a component that is already running has
     # raised an interrupt (replayed to the scheduler when it subscribes): the initial tick must still update every
     # device at every depth once, in dependency order, before anything else happens
